@@ -268,3 +268,30 @@ pub fn initial_images(g: &Geo, which: &[&str]) -> Vec<ImageSet> {
     }
     out
 }
+
+
+/// reduced alphabet for the crash / fault families (deeper histories)
+pub fn crash_alphabet(g: &Geo) -> Vec<Op> {
+    let (bs, cs, sl, tb, v) = (g.bs(), g.cs(), g.sl(), g.tb(), g.vsize());
+    let mut ops = vec![
+        Op::Write { off: 0, len: bs as usize, tag: 1 },
+        Op::Write { off: cs, len: cs as usize, tag: 3 },
+    ];
+    if sl < tb {
+        ops.push(Op::Write { off: sl - bs, len: 2 * bs as usize, tag: 4 });
+    } else {
+        ops.push(Op::Write { off: cs - bs, len: 2 * bs as usize, tag: 2 });
+    }
+    if v > 2 * tb {
+        ops.push(Op::Write { off: 2 * tb + cs, len: bs as usize, tag: 8 });
+    }
+    ops.push(Op::Read { off: 0, len: bs as usize });
+    if v > tb {
+        ops.push(Op::Read { off: tb - cs, len: 2 * cs as usize });
+    }
+    ops.push(Op::Discard { off: cs, len: cs });
+    ops.push(Op::Discard { off: 0, len: 2 * cs });
+    ops.push(Op::Flush);
+    ops.push(Op::Sync);
+    ops
+}
